@@ -559,6 +559,7 @@ func c03Protocol(r *ev.Rec) {
 			}
 			taken := &[]world.Injected{}
 			if !c03Free {
+				w.AmbiguousWrites = os.Getenv("VERIF_AMBIG") != ""
 				taken = w.AttachFaults(run, func(c *world.Call) bool { return c.Verb == "create" && c.Kind == "NodeClaim" })
 			}
 			th.OnPoint = func() {
